@@ -94,7 +94,9 @@ func (t *NotUndefType) Get(key string) (value px.Value, ok bool) {
 
 func (t *NotUndefType) IsAssignable(o px.Type, g px.Guard) bool {
 	if on, ok := o.(*NotUndefType); ok {
-		return GuardedIsAssignable(t.typ, on.typ, g)
+		// NotUndef[X] accepts NotUndef[Y] when X accepts Y, and also when X accepts NotUndef[Y] itself (X may be
+		// a NotUndef type in turn: NotUndef[NotUndef[Any]] accepts NotUndef[NotUndef[Any]])
+		return GuardedIsAssignable(t.typ, on.typ, g) || GuardedIsAssignable(t.typ, on, g)
 	}
 	return !GuardedIsAssignable(o, undefTypeDefault, g) && GuardedIsAssignable(t.typ, o, g)
 }
